@@ -147,9 +147,9 @@ def exception_corpus(marker: str = 'MARKER-exc-zq') -> list:
 
 def rpc_error_corpus() -> list:
     """every boundary error code raised once by a method per way of serving it (as a call next to a notification): the 32 / 53 / 64 bit
-    boundaries on both sides, codes far beyond them, the falsy code, codes with and without a registered class; with and without data"""
+    boundaries on both sides, codes far beyond them, the falsy code, codes with and without a registered class, the codes the library itself answers with; with and without data"""
     t = lambda doc: {'doc': doc, 'ascii': True, 'indent': 0, 'pad': '', 'huge': None, 'mangle': None}  # noqa: E731
-    codes = [0, -1, 2**31 - 1, 2**31, -2**31 - 1, 2**53, 2**53 + 1, -2**53 - 1, 2**63 - 1, 2**63, -2**63, -2**63 - 1, 2**64, 10**30, -10**30, -32099, -32000, 2008]
+    codes = [0, -1, 2**31 - 1, 2**31, -2**31 - 1, 2**53, 2**53 + 1, -2**53 - 1, 2**63 - 1, 2**63, -2**63, -2**63 - 1, 2**64, 10**30, -10**30, -32099, -32000, 2008, -32700, -32600, -32601, -32602, -32603]
     out = []
     for kind, plain in (('sync', False), ('async', False), ('async', True)):
         for i, code in enumerate(codes):
